@@ -205,6 +205,9 @@ func (e *Enc) encAlloc(fr *Frame, st *State, in *ssa.Alloc) {
 
 func (e *Enc) nilCheck(fr *Frame, st *State, p *Val, pos token.Pos, what string) {
 	if p.Loc != nil {
+		if p.Loc.Nullable {
+			e.safety(fr, st, "nil", not(eq(p.Loc.Ref, "0")), "nil dereference: "+what, pos)
+		}
 		return
 	}
 	if len(p.L) != 1 {
@@ -220,7 +223,7 @@ func (e *Enc) nilCheck(fr *Frame, st *State, p *Val, pos token.Pos, what string)
 func (e *Enc) encStore(fr *Frame, st *State, in *ssa.Store) {
 	p := e.val(fr, in.Addr)
 	v := e.val(fr, in.Val)
-	if p.Loc == nil {
+	if p.Loc == nil || p.Loc.Nullable {
 		e.nilCheck(fr, st, p, in.Pos(), "store")
 	}
 	loc := e.ptrLoc(p)
@@ -264,7 +267,7 @@ func (e *Enc) encUnOp(fr *Frame, st *State, in *ssa.UnOp) *Val {
 	x := e.val(fr, in.X)
 	switch in.Op {
 	case token.MUL: // load
-		if x.Loc == nil {
+		if x.Loc == nil || x.Loc.Nullable {
 			e.nilCheck(fr, st, x, in.Pos(), "load")
 		}
 		loc := e.ptrLoc(x)
@@ -477,10 +480,16 @@ func (e *Enc) valsEqual(x, y *Val, t types.Type) string {
 		if y.Clos != nil && len(x.L) == 1 {
 			return "false"
 		}
-		if x.Loc != nil && len(y.L) == 1 && y.L[0].T == "0" {
+		if x.Loc != nil && y.Loc == nil && y.Clos == nil && len(y.L) == 1 && y.L[0].T == "0" {
+			if x.Loc.Nullable {
+				return eq(x.Loc.Ref, "0")
+			}
 			return "false"
 		}
-		if y.Loc != nil && len(x.L) == 1 && x.L[0].T == "0" {
+		if y.Loc != nil && x.Loc == nil && x.Clos == nil && len(x.L) == 1 && x.L[0].T == "0" {
+			if y.Loc.Nullable {
+				return eq(y.Loc.Ref, "0")
+			}
 			return "false"
 		}
 		e.unsupportedf("comparison of interior pointers / closures")
@@ -527,6 +536,9 @@ func (e *Enc) encFieldAddr(fr *Frame, st *State, in *ssa.FieldAddr) *Val {
 	f := stt.Field(in.Field)
 	var base *Loc
 	if x.Loc != nil {
+		if x.Loc.Nullable {
+			e.nilCheck(fr, st, x, in.Pos(), "field "+f.Name())
+		}
 		base = x.Loc
 	} else {
 		e.nilCheck(fr, st, x, in.Pos(), "field "+f.Name())
